@@ -1676,18 +1676,31 @@ def einsum(sig, operands, node=None):
     if len(terms) != len(operands):
         raise Unsupported("einsum arity", node)
     clean = []
-    for t in terms:
+    # a trailing ellipsis also absorbs the *modelled* axes an operand has
+    # beyond its named indices (a rank-3 gradient under 'ii...'): they get
+    # private letters and go where numpy puts the ellipsis axes
+    extra = ""
+    for t, v in zip(terms, operands):
         if "..." in t:
             if not t.endswith("..."):
                 raise Unsupported("einsum ellipsis not trailing", node)
             t = t[:-3]
+            if isinstance(v, Arr) and len(v.shape) > len(t):
+                k = len(v.shape) - len(t)
+                letters = "ABCDEFGH"[:k]
+                if extra and extra != letters:
+                    raise Unsupported("einsum: operands with different "
+                                      "numbers of absorbed axes", node)
+                extra = letters
+                t = t + letters
         clean.append(t)
     if out is None:
         cnt = {}
         for t in clean:
             for ch in t:
                 cnt[ch] = cnt.get(ch, 0) + 1
-        out = "".join(sorted(ch for ch, n in cnt.items() if n == 1))
+        out = extra + "".join(sorted(ch for ch, n in cnt.items()
+                                     if n == 1 and ch not in extra))
     else:
         if "..." in out:
             if not out.startswith("...") and not out.endswith("..."):
@@ -1695,7 +1708,10 @@ def einsum(sig, operands, node=None):
             if out.startswith("...") and len(out) > 3:
                 raise Unsupported("einsum output with leading ellipsis",
                                   node)
-            out = out.replace("...", "")
+            out = out.replace("...", extra)
+        elif extra:
+            raise Unsupported("einsum: absorbed axes without an output "
+                              "ellipsis", node)
     ext = {}
     ops = []
     for t, v in zip(clean, operands):
